@@ -11,6 +11,7 @@ import (
 	"os"
 	"path/filepath"
 	"runtime/debug"
+	"sort"
 	"strings"
 	"time"
 
@@ -138,8 +139,8 @@ func degenerates() []degenerate {
 	rules := map[string][]string{"empty-rule": {}, "empty-token": {""}, "one-token": {"MATCH"}, "eleven-tokens": {"MATCH", "a", "IN", "b", "WITH", "PRODUCTS", "IN", "c", "FROM", "d", "e"},
 		"match-nine-tokens": {"MATCH", "a", "IN", "b", "WITH", "PRODUCTS", "IN", "c", "FROM"}, "nil-rule": nil, "bad-glob": {"ALLOW", "[a"}, "bad-glob-match": {"MATCH", "[", "WITH", "PRODUCTS", "FROM", "s1"},
 		"unterminated-class-multibyte": {"ALLOW", "out.[ä"}, "escaped-open-class": {"DISALLOW", "*[^\\]"}}
-	for rn, r := range rules {
-		r := r
+	for _, rn := range sortedKeys(rules) { // a fixed order: every worker must enumerate the same sequence
+		r := rules[rn]
 		add("rule-"+rn+"-in-step-materials", func(l *intoto.Layout) { l.Steps[0].ExpectedMaterials = [][]string{r} })
 		add("rule-"+rn+"-in-step-products", func(l *intoto.Layout) { l.Steps[0].ExpectedProducts = [][]string{r} })
 		add("rule-"+rn+"-in-inspection-materials", func(l *intoto.Layout) { l.Inspect[0].ExpectedMaterials = [][]string{r} })
@@ -175,7 +176,8 @@ func degenerates() []degenerate {
 	add("constraint-all-nil", func(l *intoto.Layout) { l.Steps[0].CertificateConstraints = []intoto.CertificateConstraint{{}} })
 	// functionary keys whose declared type contradicts their material
 	for _, kt := range []string{"rsa", "ecdsa", "ed25519", "", "x"} {
-		for mn, mat := range keyMaterials() {
+		for _, mn := range sortedKeys(keyMaterials()) {
+			mat := keyMaterials()[mn]
 			kt, mat, mn := kt, mat, mn
 			add("functionary-key-type-"+nz(kt)+"-material-"+mn, func(l *intoto.Layout) {
 				id := l.Steps[0].PubKeys[0]
@@ -251,7 +253,7 @@ func runDegenerate(c *mcx.Ctx, name string, dsse bool) (obs, sig string) {
 func keyCases() []string {
 	var out []string
 	for _, kt := range []string{"rsa", "ecdsa", "ed25519", "", "x"} {
-		for mn := range keyMaterials() {
+		for _, mn := range sortedKeys(keyMaterials()) {
 			for _, sc := range []string{"default", "other"} {
 				for _, use := range []string{"verify", "sign", "layout-key"} {
 					out = append(out, fmt.Sprintf("%s|%s|%s|%s", nz(kt), mn, sc, use))
@@ -511,8 +513,53 @@ func judge(c *mcx.Ctx, cs Case) (obs, sig string) {
 		return runSig(c, cs.What)
 	case "hostile-dir":
 		return runHostile(c, cs.What, cs.DSSE)
+	case "pattern-work":
+		return runPatternWork(c, cs.What)
 	}
 	return "unknown part", ""
+}
+
+// patternFamilies: rule patterns with many wildcards against a name in which their pieces recur many times
+// and that does not match in the end - the input on which a matcher that retries every split of every star
+// needs time exponential in the number of stars. A matcher that returns answers this in microseconds.
+var patternFamilies = map[string][2]string{
+	"stars-and-a-letter":  {strings.Repeat("*a", 26) + "*b", strings.Repeat("xa", 52)},
+	"stars-between-slash": {strings.Repeat("*/", 24) + "*.c", strings.Repeat("d/", 48) + "f.h"},
+}
+
+func runPatternWork(c *mcx.Ctx, family string) (obs, sig string) {
+	pn, ok := patternFamilies[family]
+	if !ok {
+		return "not found", ""
+	}
+	st := gen.Step("s", 1, nil, [][]string{{"ALLOW", pn[0]}, {"DISALLOW", "*"}}, [][]string{{"ALLOW", "*"}})
+	link := gen.MustWrap(gen.Link("s", gen.Arts(pn[1], gen.H(1)), gen.Arts()), false)
+	done := make(chan string, 1)
+	go func() {
+		done <- guard(func() {
+			_ = intoto.VerifyArtifacts([]interface{}{st}, map[string]intoto.Metadata{"s": link})
+		})
+	}()
+	c.Impl(1)
+	select {
+	case pan := <-done:
+		if pan != "" {
+			return "panic: " + pan, "C15|panic|pattern-work|" + panicClass(pan)
+		}
+		return "returned", ""
+	case <-time.After(30 * time.Second):
+		// microseconds of work did not finish in a minute: the call does not return in any useful sense
+		return "VerifyArtifacts did not return within 30 s for a " + fmt.Sprint(len(pn[0])) + "-character pattern and a " + fmt.Sprint(len(pn[1])) + "-character name", "C15|no-return|rule-pattern-with-many-wildcards|" + family
+	}
+}
+
+func sortedKeys[V any](m map[string]V) []string {
+	out := make([]string, 0, len(m))
+	for k := range m {
+		out = append(out, k)
+	}
+	sort.Strings(out)
+	return out
 }
 
 func silence() func() {
@@ -528,6 +575,9 @@ func enumerate(c *mcx.Ctx, emit func(Case)) {
 		if c.Thorough() || strings.Contains(d.Name, "links=none") {
 			emit(Case{Part: "degenerate", What: d.Name, DSSE: true})
 		}
+	}
+	for _, f := range []string{"stars-and-a-letter", "stars-between-slash"} {
+		emit(Case{Part: "pattern-work", What: f})
 	}
 	for _, k := range keyCases() {
 		emit(Case{Part: "key", What: k})
@@ -624,7 +674,7 @@ func init() {
 	mcx.Register(&mcx.Driver{
 		ID: "C15", Run: run, Replay: replay, CrashIsViolation: true,
 		Rule: "the finite neighbourhood of four valid seed files (legacy/DSSE x fully populated link/layout): every prefix (truncation at every byte) and the substitution of every third (thorough: every) byte by each of 12 bytes ({ } [ ] \" : , \\ 0 NUL 0xff space), each pushed through LoadMetadata, Metablock.Load and - when it loads - ValidateMetablock, VerifySignature, Sign and InTotoVerify; every single-point structural corruption of the seeds (the C12 walk) re-signed by the legitimate key and verified / offered as link evidence; " +
-			"a catalogue of degenerate layouts (10 odd rules in each of the four rule positions, thresholds -1/0/2/2^31, undefined / empty pubkeys, duplicate / empty / odd step names, zero steps, empty inspection commands, garbage CA entries, 5 key types x 11 key materials for a functionary key) x link directory {honest, empty, garbage}; 5 key types x 11 materials x 2 schemes used for VerifySignature, Sign and as layout key, both wrappers; 11 hostile signature entries; 9 hostile link directories (directory / symlink loop / dangling symlink as link, sublayout directory leading back to itself, 200 garbage links, huge link, null fields). " +
+			"two rule patterns with 24-26 wildcards against names in which their pieces recur (the call must return; half a minute is allowed for microseconds of work); a catalogue of degenerate layouts (10 odd rules in each of the four rule positions, thresholds -1/0/2/2^31, undefined / empty pubkeys, duplicate / empty / odd step names, zero steps, empty inspection commands, garbage CA entries, 5 key types x 11 key materials for a functionary key) x link directory {honest, empty, garbage}; 5 key types x 11 materials x 2 schemes used for VerifySignature, Sign and as layout key, both wrappers; 11 hostile signature entries; 9 hostile link directories (directory / symlink loop / dangling symlink as link, sublayout directory leading back to itself, 200 garbage links, huge link, null fields). " +
 			"Oracle: every call returns (recover in the worker, a dying or hanging worker is attributed to the case it had announced). states = cases.",
 		Assumptions: []string{"the claim over all byte strings is decided only for edit distance 1 from the seeds and for the catalogues; coverage-guided fuzzing is a different technique family and is not done",
 			"a hang is a call that does not return within 120 s although such calls take milliseconds"},
